@@ -500,7 +500,20 @@ pub fn decode_for(
     metric: Metric,
 ) -> Result<IndexDump, Fail> {
     match decode_index(dump, index, metric, cfg.format_roundtrip) {
-        Ok(d) => Ok(d),
+        Ok(d) => {
+            if cfg.format_roundtrip {
+                if let Some(v) = d.version {
+                    let want = crate::c17::crate_version();
+                    if v != want {
+                        return violation(
+                            "format:version",
+                            format!("version record of index {index} decodes (3 x u32 big-endian) as {v:?}, the crate version is {want:?}"),
+                        );
+                    }
+                }
+            }
+            Ok(d)
+        }
         Err(e) => {
             if cfg.format_roundtrip {
                 violation("format:decode", format!("database does not decode under the reference layout: {e}"))
